@@ -513,18 +513,23 @@ MK_OVERWRITE, MK_NEW, MK_ATTR = 0, 1, 2
 @obligation(quick=90, thorough=200,
             what="get_state() is a snapshot: changing a top-level field / key / dynamic attribute of it leaves the store "
                  "unchanged until set_state(snapshot), which then makes the change visible",
-            bounds={"stores": 2, "state types": "DictState / typed / inherited typed", "mutations": "overwrite existing, add new (DictState), attribute style"})
-def ob_snapshot_isolation(st: int, kind: int, mk: int) -> bool:
+            bounds={"stores": 2, "state types": "DictState / typed / inherited typed", "mutations": "overwrite existing, add new (DictState), attribute style",
+                    "DictState store before the snapshot": "two keys / fresh and empty / filled then cleared"})
+def ob_snapshot_isolation(st: int, kind: int, mk: int, empty: int = 0) -> bool:
     """
     pre: 0 <= st <= 1 and kind in (2, 3, 4) and 0 <= mk <= 2 and (kind == 2 or mk != 1)
+    pre: 0 <= empty <= 2 and (kind == 2 or empty == 0)
     post: _
     """
-    st, kind, mk = cint(st, 0, 1), cint(kind, 0, 4), cint(mk, 0, 2)
+    st, kind, mk, empty = cint(st, 0, 1), cint(kind, 0, 4), cint(mk, 0, 2), cint(empty, 0, 2)
     with untraced():
         with SqliteEnv() as env:
             store = new_stores(kind, env)[st]
-            drive(store.set("a", {"b": 1}))
-            drive(store.set("b", [1]))
+            if empty != 1:                       # 1: a fresh DictState store without any key
+                drive(store.set("a", {"b": 1}))
+                drive(store.set("b", [1]))
+            if empty == 2:                       # 2: a store that was filled and then cleared
+                drive(store.clear())
             before = store_plain(store)
             snap = drive(store.get_state())
             if kind == K_DS:
